@@ -33,7 +33,7 @@ def run(tier, seed):
             rejected += 1
             rep.sample({"program": label, "rejected_by_generator": repr(e)})
             continue
-        kind = kind.partition(":")[0]
+        kind = kind if kind.startswith("copy:") else kind.partition(":")[0]
         meta[label] = (code, kind, fmt, p, guard, lv_addr)
         env = Env(ctx="xdp", pkt_len=pkt_len, pkt_mem=pkt0)
         res = bpf_run(code, env)
@@ -74,12 +74,14 @@ def run(tier, seed):
                     "the 8-byte local holds struct.unpack(fmt, packet[p:p+n])[0], extended by its signedness")
                 add("read[packet unchanged]", pc + [long_], A.sel(fin, k) == A.sel(pkt0, k), "no packet byte changes")
             else:
-                src = A.rd_le(st0, so, 8) if kind == "write" else A.value_of(pkt0, p, fmt) + 3
+                src = A.rd_le(st0, so, 8) if kind == "write" else \
+                    A.value_of(pkt0, 24, kind[5:]) if kind.startswith("copy:") else A.value_of(pkt0, p, fmt) + 3
                 want = A.bytes_of(src, fmt)
-                add(f"{kind}[bytes of struct.pack]", pc + [long_],
+                kd = kind.partition(":")[0]
+                add(f"{kd}[bytes of struct.pack]", pc + [long_],
                     z3.And(*[A.sel(fin, p + j) == want[j] for j in range(n)]),
                     "packet[p:p+n] == struct.pack(fmt, value mod 2**(8n))")
-                add(f"{kind}[no other packet byte]", pc + [long_, z3.Or(z3.ULT(k, p), z3.UGE(k, p + n))],
+                add(f"{kd}[no other packet byte]", pc + [long_, z3.Or(z3.ULT(k, p), z3.UGE(k, p + n))],
                     A.sel(fin, k) == A.sel(pkt0, k), "every other packet byte is unchanged")
     rep.extra["programs"] = len(meta)
     rep.extra["rejected_by_generator"] = rejected
@@ -116,6 +118,9 @@ def native(kind, fmt, p, guard, pkt, src):
         return TX, bytes(pkt), struct.unpack(f, pkt[p:p + n])[0]
     if kind == "write":
         v = src % (1 << 8 * n)
+    elif kind.startswith("copy:"):
+        sf = kind[5:] if kind[5] in "<>!" else "<" + kind[5:]
+        v = struct.unpack(sf, pkt[24:24 + struct.calcsize(sf)])[0] % (1 << 8 * n)
     else:
         v = (struct.unpack(f, pkt[p:p + n])[0] + 3) % (1 << 8 * n)
     out = bytearray(pkt)
